@@ -1720,6 +1720,10 @@ DEFAULT_MODELS = {
     'isxdigit': _ctype(lambda c: 48 <= c <= 57 or 65 <= c <= 70 or 97 <= c <= 102),
     'isspace': _ctype(lambda c: c in (32, 9, 10, 11, 12, 13)),
     'isprint': _ctype(lambda c: 32 <= c <= 126),
+    'isblank': _ctype(lambda c: c in (32, 9)),
+    'iscntrl': _ctype(lambda c: 0 <= c <= 31 or c == 127),
+    'isgraph': _ctype(lambda c: 33 <= c <= 126),
+    'ispunct': _ctype(lambda c: 33 <= c <= 126 and not (48 <= c <= 57 or 65 <= c <= 90 or 97 <= c <= 122)),
     'isupper': _ctype(lambda c: 65 <= c <= 90),
     'islower': _ctype(lambda c: 97 <= c <= 122),
     'tolower': _tolower, 'toupper': _toupper,
